@@ -211,6 +211,24 @@ pub fn ctx_reply(c: &sylvia::ctx::ReplyCtx) -> Value {
            "gas_used": c.gas_used.to_string(), "events": evs, "msg_responses": c.msg_responses.len()})
 }
 
+/// The context a legacy reply method gets (no `replies` feature: deps and env only).
+#[allow(deprecated)]
+pub fn ctx_reply_legacy(c: &sylvia::types::ReplyCtx) -> Value {
+    let token = c.deps.storage.get(b"verif_token").map(|b| String::from_utf8_lossy(&b).to_string()).unwrap_or_default();
+    json!({"height": c.env.block.height.to_string(), "contract": c.env.contract.address.to_string(), "token": token,
+           "gas_used": "", "events": [], "msg_responses": 0})
+}
+
+/// The whole reply as a legacy reply method sees it.
+#[allow(deprecated)]
+pub fn reply_proj(r: &Reply) -> Value {
+    let (ok, events, data, text) = match &r.result {
+        SubMsgResult::Ok(resp) => (true, resp.events.len(), resp.data.as_ref().map(|d| d.to_base64()).unwrap_or_default(), String::new()),
+        SubMsgResult::Err(e) => (false, 0, String::new(), e.clone()),
+    };
+    json!({"kind":"reply","id":r.id.to_string(),"payload":r.payload.to_base64(),"gas_used":r.gas_used.to_string(),"ok":ok,"events":events,"data":data,"text":text})
+}
+
 pub fn reply_handler(prog: &str, name: &str, ctx: Value, data: Value, second: Value, payload: Vec<Value>) {
     rt::emit(json!({"ev":"ReplyHandler","prog":prog,"name":name,"ctx":ctx,"data":data,"second":second,"payload":payload}));
 }
